@@ -8,6 +8,8 @@ def run(ctx):
         ctx.run_shards(b, "TestVerifC08", 1, 600, "c08")
     else:
         driver.run_scaled(ctx, b, "TestVerifC08", 16, 3000, "c08")
+        # fresh processes whose first uses of a codec are concurrent (192 children, 24 per codec; thorough: 480)
+        ctx.run_shards(b, "TestVerifC08", 192 if ctx.tier == "quick" else 480, 300, "c08first", extra_env={"VERIF_C08_MODE": "first-use"}, parallel=16)
     if ctx.tier == "thorough" and not ctx.replay:
         br = ctx.build("internal/zzverif/c08", race=True)
         ctx.run_shards(br, "TestVerifC08", 16, 3000, "c08race", extra_env={"VERIF_TIER": "quick"}, race=True)
@@ -16,6 +18,6 @@ def run(ctx):
         "for each of the 8 codecs reachable through enc.FromCode: all strings of length 0-2 (exhaustive), every length 0..N "
         "(N=8192; quick = one seed, thorough = three seeds) with repeated-byte/counter/random content, all single-bit strings up to 40/130 bytes; "
         "oracle: Decode(Encode(x))==x without error, no output byte in {'.','\\\\',' ',0x00-0x1f,0x7f}, len(out) <= ceil(len*Ratio())+8 "
-        "(Raw: lossless only). A case is distinct by (codec, input bytes); every case runs the full oracle so each is non-trivial.",
+        "(Raw: lossless only). FIRST USE: 192 (thorough 480) fresh processes in each of which the very first uses of one codec happen on 16 goroutines at once (what is set up lazily must be safe for that); judged like the concurrent family, a crash of the process is a violation. A case is distinct by (codec, input bytes); every case runs the full oracle so each is non-trivial.",
         ["enc.FromCode lists every selectable codec", "reference oracle is the identity on byte strings; no model of the codecs"],
         extra_cov={"exhaustive": False, "exhaustive_subspace": "all inputs of length 0..2 for every codec (65793 strings each)"})
